@@ -62,6 +62,10 @@ def _rich_meas(draw, wires, entropies=True):
             gen.observable(wires).map(lambda o: {"mp": "var", "obs": o}),
             sub.map(lambda w: {"mp": "probs", "w": w}), gen.pauli_word_obs(wires).map(lambda o: {"mp": "probs", "obs": o}),
             st.just({"mp": "state"}), sub.map(lambda w: {"mp": "density_matrix", "w": w})]
+    # dense complex Hermitian observables (matrix-based expectation / variance paths differ per device)
+    herm = st.integers(1, min(2, n)).flatmap(lambda k: st.tuples(gen.float_list(5), gen.subset(wires, k)).map(
+        lambda t: {"op": "Hermitian", "p": [{"H": t[0], "n": len(t[1])}], "w": t[1]}))
+    opts += [herm.map(lambda o: {"mp": "expval", "obs": o}), herm.map(lambda o: {"mp": "expval", "obs": o}), herm.map(lambda o: {"mp": "var", "obs": o})]
     if entropies:
         opts += [sub.map(lambda w: {"mp": "purity", "w": w}),
                  st.tuples(sub, st.sampled_from([None, 2])).map(lambda t: {"mp": "vn_entropy", "w": t[0], "log_base": t[1]})]
